@@ -108,8 +108,9 @@ func TestVerif_C19_BFD(t *testing.T) {
 		maxLen = 4
 	}
 	r.Bounds["all_strings_alphabet"] = 256
+	r.Bounds["all_strings_max_len_full_alphabet"] = 3
 	r.Bounds["all_strings_max_len"] = maxLen
-	r.Extra["all_strings_count"] = c19lib.CountStrings(256, 0, maxLen)
+	r.Extra["all_strings_count"] = c19lib.CountStrings(256, 0, 3)
 
 	// seeds: marshalled boundary headers, plus one with a trailing authentication section
 	var seeds [][]byte
@@ -133,7 +134,7 @@ func TestVerif_C19_BFD(t *testing.T) {
 	r.Bounds["mutation_byte_values"] = 256
 	r.Bounds["mutation_pairs"] = opt.Pairs
 
-	r.Bounds["all_strings_len4_cap_eq_len_only"] = vr.Thorough()
+	r.Bounds["all_strings_len4_alphabet"] = "boundary(21) - thorough only"
 	r.Parallel(W, func(w int, cr *vr.Report) {
 		c := c19lib.NewChecker(cr)
 		defer c.Done()
@@ -142,11 +143,10 @@ func TestVerif_C19_BFD(t *testing.T) {
 			c.Check(e, s, "all-strings")
 		})
 		if maxLen > 3 {
-			// 4.3 G strings: executed with cap==len only (the two poison-slack executions are skipped)
-			t := *e
-			t.TightOnly = true
-			c19lib.Strings(full, 4, maxLen, w, W, func(s []byte) {
-				c.Check(&t, s, "all-strings")
+			// length 4 over the full alphabet is 4.3 G strings (7 minutes on the shared machine for inputs
+			// that all fail the 24-byte minimum): the boundary alphabet is used at length 4
+			c19lib.Strings(c19lib.Boundary, 4, maxLen, w, W, func(s []byte) {
+				c.Check(e, s, "boundary-strings")
 			})
 		}
 		for si, seed := range seeds {
